@@ -637,6 +637,16 @@ def check_basics(ctx, cr, s):
             if not d:
                 d = self_cell_unchanged(o, St)
             ctx.ob(props, okey, d is None, d or "", sample={"decl": path, "fn": "raw_value", "ret": o["v"]})
+    # the basic API is public (whatever the visibility of the struct itself)
+    adt = cr["_adt"].get(path)
+    if adt is not None:
+        vis = {}
+        for im in adt["impls"]:
+            for it in im["items"]:
+                vis[it["name"]] = bool(it.get("pub")) or vis.get(it["name"], False)
+        want = ["new_with_raw_value", "raw_value", "ZERO"] + (["DEFAULT"] if s["default"] is not None else [])
+        hidden = [n for n in want if n in vis and not vis[n]]
+        ctx.ob({"C06"}, path + "|basic_api_public", not hidden, "not `pub`: %s" % hidden if hidden else "")
     # constants
     zc = cr["_const"].get((path, "ZERO"))
     okey = path + "::ZERO"
@@ -954,7 +964,8 @@ def check_builder(ctx, cr, s):
     if adt:
         for im in adt["impls"]:
             for it in im["items"]:
-                items.add(it["name"])
+                if it.get("pub"):
+                    items.add(it["name"])  # ("offered" = callable by the user: a private builder() is not offered)
     has = "builder" in items
     shape = ("builder", s["base"], s["default"] is not None, tuple((tuple(map(tuple, f["ranges"])), f["access"], (f["array"]["k"], fstride(f)) if f["array"] else None) for f in s["fields"]))
     ctx.note_shape({"C14"}, path, shape)
@@ -980,6 +991,8 @@ def check_builder(ctx, cr, s):
     # type-state graph: nodes = const args of the inherent impls; edges = methods returning Partial<m'>
     graph = {}
     finals = {}
+    graph_pub = {}    # what a user outside the declaring module can call (presence is about the public API)
+    finals_pub = {}
     for im in padt["impls"]:
         if im.get("generic"):
             # an impl over all masks: its methods are available in every state
@@ -994,8 +1007,12 @@ def check_builder(ctx, cr, s):
                 continue
             if fn.get("ret_adt") == pp:
                 graph.setdefault(node, []).append((it["name"], tuple(fn.get("ret_consts") or []), fn))
+                if it.get("pub"):
+                    graph_pub.setdefault(node, []).append((it["name"], tuple(fn.get("ret_consts") or []), fn))
             elif fn.get("ret_adt") == path:
                 finals.setdefault(node, []).append((it["name"], fn))
+                if it.get("pub"):
+                    finals_pub.setdefault(node, []).append((it["name"], fn))
     bfn = fn_of(cr, path, "builder")
     if bfn is None or bfn.get("ret_adt") != pp:
         ctx.ob({"C13", "C14"}, path + "|builder_sig", False, "builder() does not return %s" % pp)
@@ -1009,15 +1026,16 @@ def check_builder(ctx, cr, s):
     detail = ""
     chain_fns = []
     for wn in wnames:
-        nxt = [e for e in graph.get(node, []) + graph.get("*", []) if e[0] == wn]
+        nxt = [e for e in graph_pub.get(node, []) + graph_pub.get("*", []) if e[0] == wn]
         if len(nxt) != 1:
             okp = False
-            detail = "state %s offers no `%s` step" % (list(node), wn)
+            hidden = [e for e in graph.get(node, []) + graph.get("*", []) if e[0] == wn]
+            detail = "state %s offers no %s`%s` step" % (list(node), "public " if hidden else "", wn)
             break
         chain_fns.append(nxt[0][2])
         node = nxt[0][1]
     if okp:
-        fin = [e for e in finals.get(node, []) + finals.get("*", []) if e[0] == "build"]
+        fin = [e for e in finals_pub.get(node, []) + finals_pub.get("*", []) if e[0] == "build"]
         if not fin:
             okp = False
             detail = "after all %d writable fields no build() -> %s is offered" % (len(wnames), s["name"])
@@ -1174,8 +1192,8 @@ def check_access(ctx, cr, s):
     names = set()
     for im in adt["impls"]:
         for it in im["items"]:
-            if it["kind"] == "fn":
-                names.add(it["name"])
+            if it["kind"] == "fn" and it.get("pub"):
+                names.add(it["name"])  # (the API surface is what is `pub`: a private method is not a getter anyone has)
     # presence / absence by name, per declared access
     for f in s["fields"]:
         fname = f["name"].replace("r#", "")
@@ -1193,7 +1211,7 @@ def check_access(ctx, cr, s):
         pnames = set()
         for im in padt["impls"]:
             for it in im["items"]:
-                if it["kind"] == "fn":
+                if it["kind"] == "fn" and it.get("pub"):
                     pnames.add(it["name"])
         for f in s["fields"]:
             fname = f["name"].replace("r#", "")
@@ -1704,8 +1722,14 @@ def regime_error(x):
 
 def decl_text(d):
     try:
-        from corpus import render_enum, render_struct
-        return " ".join(l.strip() for l in (render_struct(d) if d["kind"] == "struct" else render_enum(d)))
+        from corpus import render_enum, render_struct, stamp_lines
+        if d["kind"] == "struct":
+            lines = render_struct(d)
+            if d.get("via_macro"):
+                lines = stamp_lines(d, lines)
+        else:
+            lines = render_enum(d)
+        return " ".join(l.strip() for l in lines)
     except Exception:
         return d.get("path", "")
 
@@ -1770,6 +1794,15 @@ def analyse_positive(ctx, want_props):
                     # the base-width family is C06's quantifier ("for every base type"): a width for which the plain
                     # type does not even compile has no raw-value round trip, constants or layout at all
                     p2.add("C06")
+                if p != {"C18"} and d["kind"] == "struct" and d.get("default") is not None and any("default" in x.get("message", "").lower() for x in mine):
+                    # the declared default itself is what the macro refuses: the value C06 promises for DEFAULT /
+                    # Default::default() / new() cannot be had for this (rule-valid) way of declaring it
+                    p2.add("C06")
+                if p != {"C18"} and d["kind"] == "struct" and (d.get("family") == "CUSTOM" or (d.get("family") == "MISC" and d["name"].startswith(("Paths", "UsesNoDerive")))) \
+                        and any(f["ty"]["k"] in ("enum", "optenum", "nested") for f in d["fields"]):
+                    # these witnesses exist to show C08 for every kind and spelling of a custom-typed field: if one
+                    # does not compile, the conversion the property promises for it does not exist
+                    p2.add("C08")
                 ctx.ob(p2, d["path"] + "|accepted", False, "%s: %s [%s]" % (what, mine[0]["message"][:220], decl_text(d)[:200]))
                 for q in allp - p:
                     ctx.ob({q}, d["path"] + "|accepted", True)
